@@ -86,6 +86,9 @@ CHECKS.update({
             "assumptions": E1_ASSUME + ["one access unit per write, so that every write causes at most one rotation and the state after each write is observable",
                                         "a request counts as blocked when its goroutine is parked in sync.Cond.Wait/select (goroutine state, not a timeout); a lock wait counts as blocked only after 3 s",
                                         "_HLS_msn equal to EXT-X-MEDIA-SEQUENCE (oldest listed entry): both 400 and a playlist are accepted (boundary pinned by TestMuxerExpiredSegment)"]},
+    "C07": {"steps": [REPLAYS, rapid("close", "TestC07", 1200, 40000, qshards=4, tshards=14, shrinktime="40s", timeout={"quick": 900, "thorough": 3000})],
+            "assumptions": E1_ASSUME + ["'promptly' is decided by goroutine state: a request is finished, or parked in a synchronisation primitive (a lock wait counts as blocked after 3 s)",
+                                        "the interleaving of Close with the waiters is controlled at the yield point between Close's broadcast and its per-stream cleanup (hook), other interleavings are the scheduler's"]},
     "C16": e1("TestC16", 1000, 30000),
     "C18": e1("TestC18", 400, 8000),
     "C19": e1("TestC19", 800, 30000),
